@@ -426,6 +426,9 @@ def parse_opcode(p: Parser) -> OpcodeAstNode:
     addressing_mode, inner_index, operand = parse_operand_and_addressing(addressing_mode, opcode, p)
 
     if accept_token(p.current(), TokenType.ADDRESSING_MODE_INDEX):
+        if inner_index is not None and inner_index != "s":
+            # (dp,x),y does not exist: only (sr,s),y combines an inner and an outer index.
+            raise ParserSyntaxError("Only the stack register can be indexed inside the parenthesis.", p.current(), None)
         index = p.next().value.lower()
         addressing_mode = index_map[addressing_mode]
 
